@@ -12,7 +12,7 @@ def build(v, suite, ops, rnd, tier, h, d):
             root = tdb.root(tname)
             n = len(tdb.order[root])
             bpos = bf.boundary_positions(tdb, root)
-            for p in bf.pick_positions(n, bpos, rnd, full, sample):
+            for p in bf.pick_positions(n, bpos, rnd, bf.budget_for(n, full, 20), bf.budget_for(n, sample, 10)):
                 k = p + 1
                 if t["without_rowid"]:
                     ops.add(s["name"], "index_scan", obj=tname, stop=k, meta={"cls": "index_scan/%s/%s" % (s["name"], tname)})
@@ -26,7 +26,7 @@ def build(v, suite, ops, rnd, tier, h, d):
             n = len(tdb.order[root])
             kw = dict(obj=name) if is_table else dict(index=name)
             bpos = bf.boundary_positions(tdb, root)
-            pos = bf.pick_positions(n, bpos, rnd, full, sample)
+            pos = bf.pick_positions(n, bpos, rnd, bf.budget_for(n, full, 20), bf.budget_for(n, sample, 10))
             if not is_table:
                 for p in pos:
                     ops.add(s["name"], "index_scan", stop=p + 1, meta={"cls": "index_scan/%s/%s" % (s["name"], name)}, **kw)
